@@ -2,10 +2,47 @@
 
 package scen
 
-import "github.com/openacid/low/verifhook"
+import (
+	"github.com/openacid/low/verifhook"
+
+	"verifsim/engine"
+)
 
 // YieldBuild reports whether the library under test was rewritten with
 // statement-level yields (check.sh: build_yield).
 const YieldBuild = true
 
-func setYieldHook(f func()) { verifhook.Y = f }
+// setSimHooks hands the rewritten library over to a scheduler: statement-level
+// yields, "cannot proceed" points of the cooperative sync stand-ins, and go
+// statements (each becomes a task of that scheduler). nil clears the hooks.
+// stride > 1: only every stride-th statement is a scheduling point; stride < 0:
+// none is.
+func setSimHooks(sch *engine.Sched, stride int) {
+	if sch == nil {
+		verifhook.Y, verifhook.B, verifhook.G = nil, nil, nil
+		return
+	}
+	verifhook.Y = func() { sch.Current().Yield() }
+	if stride < 0 {
+		// a sequential phase: no statement is a scheduling point (a task gives way
+		// only where it cannot proceed, or when it ends)
+		verifhook.Y = nil
+	}
+	if stride > 1 {
+		n := 0 // one task runs at a time: a plain counter, the same in every execution
+		verifhook.Y = func() {
+			n++
+			if n%stride == 0 {
+				sch.Current().Yield()
+			}
+		}
+	}
+	verifhook.B = func() { sch.Current().Block() }
+	verifhook.G = func(f func()) {
+		sch.SpawnLive(func(tk *engine.Task) {
+			enablePanicOnFault()
+			tk.InCall = true // a goroutine of the library runs library code only
+			f()
+		})
+	}
+}
